@@ -72,7 +72,7 @@ func ruleHostile(c *core.Ctx) {
 	// ... and never panics on VALID input either: every member of the broad union of families (all keyword families, defaults of every
 	// kind, enums, compositions) is generated; a panic of the interpreted generator or an error on a valid schema is reported
 	for _, mb := range broadMembers(c.Tier, gen.DefaultConfig()) {
-		runMember(c, mb, ruleSet("A-PANIC", "A-GENERR"), 64, func(w *fam.World, fm *fam.FileModel) []fam.Issue { return nil })
+		runMember(c, mb, ruleSet("A-PANIC", "A-GENERR"), 256, func(w *fam.World, fm *fam.FileModel) []fam.Issue { return nil })
 	}
 	// `{"$ref": "#"}` — a reference to the document itself is valid JSON Schema (the usual way to write a recursive root)
 	for _, pos := range []string{"property", "items"} {
@@ -83,7 +83,7 @@ func ruleHostile(c *core.Ctx) {
 		}
 		mb := member{name: "a reference to the document itself (#) as " + pos, cfg: gen.DefaultConfig(),
 			root: &fam.Spec{Kind: "object", Props: []*fam.Prop{{Label: "n", Spec: &fam.Spec{Kind: "integer"}, Required: true}, {Label: "self", Spec: sp}}}}
-		runMember(c, mb, ruleSet("A-PANIC", "A-GENERR"), 64, func(w *fam.World, fm *fam.FileModel) []fam.Issue { return nil })
+		runMember(c, mb, ruleSet("A-PANIC", "A-GENERR"), 256, func(w *fam.World, fm *fam.FileModel) []fam.Issue { return nil })
 	}
 	// a referenced file is processed as a whole: an ungeneratable definition anywhere in it fails the run (also without $id)
 	ruleMultiSel(c, ruleSet("A-SILENT", "A-ROUTE", "A-GENERR"), 2, "two files without $id")
